@@ -352,10 +352,15 @@ func isMadeChan(t *ir.Term) bool {
 	if t.Op == "mkchan" {
 		return true
 	}
-	if m, _, _, ok := callParts(t); ok && m == "errch" {
-		return true
+	return isErrchCall(t)
+}
+
+// isErrchCall: t is the result of the errch role (interface method (int) chan error), whatever it is called.
+func isErrchCall(t *ir.Term) bool {
+	if t == nil || t.Op != "call" || len(t.Args) == 0 || t.Args[0].Op != "method" || t.Args[0].Meth == nil {
+		return false
 	}
-	return false
+	return sigIsErrch(t.Args[0].Meth.Type().(*types.Signature))
 }
 
 func chanCap(t *ir.Term) *ir.Term {
